@@ -396,7 +396,8 @@ def coverage(ctx, rows):
     ctx.cov["slowest_history_ms"] = max(r.get("ms", 0) for r in rows)
     fr = getattr(ctx, "free_runs", [])
     ctx.cov["free_runs_of_the_real_Run"] = {"scenarios": len(fr), "events": sum(len(r["events"]) for r in fr), "events_that_had_to_be_forwarded": sum(1 for r in fr for e in r["events"] if e["must"]),
-                                            "forwarded": sum(len(r["forwarded"]) for r in fr), "count_requests": sum(r["count_requests"] for r in fr), "page_requests": sum(r["page_requests"] for r in fr)}
+                                            "forwarded": sum(len(r["forwarded"]) for r in fr), "count_requests": sum(r["count_requests"] for r in fr), "page_requests": sum(r["page_requests"] for r in fr),
+                                            "inconclusive_request_timed_out_in_the_client": sum(1 for r in fr if r.get("client_timeout"))}
 
 
 # ================================================================== X2: the composed pipeline (model.AlphPipeline) on the histories of the "fields" family
